@@ -423,14 +423,16 @@ CHECKS = {'C01': {'level': 'exploration',
                          'race=<regex>)'],
          'tests': [{'run': '^TestC18Race$',
                     'race': True,
-                    'checks': {'quick': 30, 'thorough': 600},
-                    'shards': {'quick': 1, 'thorough': 2},
+                    'checks': {'quick': 30, 'thorough': 50},
+                    'shards': {'quick': 1, 'thorough': 12},
                     'env': {'VERIF_C18_MS': {'quick': 400, 'thorough': 1500}},
-                    'timeout': {'quick': 900, 'thorough': 3400}},
+                    'timeout': {'quick': 900, 'thorough': 3400},
+                    'par': 4},
                    {'run': '^TestC18Targeted$',
                     'race': True,
                     'env': {'VERIF_C18_MS': {'quick': 500, 'thorough': 2000}},
-                    'timeout': {'quick': 900, 'thorough': 3400}}]},
+                    'timeout': {'quick': 900, 'thorough': 3400},
+                    'par': 4}]},
  'C19': {'level': 'exploration',
          'rule': 'model-based stateful histories on numeric and string columns (all widths, additive / order-sensitive / same-length merge '
                  'functions): transactions with puts, merges, several writes to one row, own-insert updates, deletes, rollbacks, multi-block '
